@@ -70,6 +70,14 @@ def defs(ind: str, doc: Optional[str], name: str = 'X') -> Dict[str, str]:
         'adef-lambda-gen': f'{ind}async def {X}(a):\n{body}{ind}    g0 = lambda: (yield)\n{ind}    return g0\n',
         'adef-class-gen': f'{ind}async def {X}(a):\n{body}{ind}    class L0:\n{ind}        def it(self): yield from ()\n{ind}    return L0\n',
         'adef-await': f'{ind}async def {X}(a):\n{body}{ind}    await a\n{ind}    async with a: pass\n{ind}    async for _ in a: pass\n',
+        # a class name bound again AFTER it was used as a base: the subclass keeps the class the name denoted then (its being an exception included)
+        'exc-rebound-exc': f'{ind}class {X}(Exception):\n{P}{ind}class S0{X}({X}):\n{P}{ind}class {X}({X}):\n{body}{P}',
+        'exc-rebound-plain': f'{ind}class {X}(Exception):\n{P}{ind}class S0{X}({X}):\n{P}{ind}class {X}:\n{body}{P}',
+        'plain-rebound-exc': f'{ind}class {X}:\n{P}{ind}class S0{X}({X}):\n{P}{ind}class {X}(KeyError):\n{body}{P}',
+        'exc-rebound-in-try': f'{ind}class {X}(Exception):\n{P}{ind}class S0{X}({X}):\n{P}{ind}try:\n{ind}    class {X}:\n{ind}        pass\n{ind}finally:\n{ind}    pass\n',
+        # a string statement right after a whole class / function statement documents nothing
+        'class-then-string': f'{ind}class {X}:\n{body}{ind}    last0 = 1\n{ind}"a stray string after the class"\n',
+        'def-then-string': f'{ind}def {X}(a):\n{body}{ind}    last0 = 1\n{ind}"a stray string after the function"\n',
         'agen': f'{ind}async def {X}(a):\n{body}{ind}    yield 1\n',
         'gen': f'{ind}def {X}(a):\n{body}{ind}    yield 1\n',
         'class_kw': f'{ind}class {X}(object, metaclass=type):\n{body}{P}',
@@ -271,6 +279,14 @@ def run_sources(items: Sequence[Tuple[str, str, List[Tuple[str, str, Optional[st
             continue
         for name, label, docexp in names:
             compare_name(pl, pns, dns, name, label, full, docexp, res, sfx)
+        # attribute docstrings: a variable has one only if a string statement follows an assignment to it directly, in the same body
+        ref = attribute_docstrings(full)
+        for o in s.allobjects.values():
+            if o.fullName().startswith(m.fullName() + '.') and isinstance(o, model_Attribute()) and o.docstring is not None and o.kind is not None and o.kind.name != 'PROPERTY':
+                key = o.fullName()[len(m.fullName()) + 1:]
+                if key not in ref and ' ' not in key:
+                    res['violations'].append(core.violation(f'attribute-docstring-invented/{pl}', f'{key}: documented as {o.docstring!r}, but no string statement follows an assignment to it:\n{full}',
+                                                            {'kind': 'src', 'src': full, 'place': pl, 'names': [n for n, _, _ in names]}))
         # nothing invented: every documented name of the namespace is bound by CPython (negative placements: nothing planted)
         if pl not in NEGATIVE and pl not in UNJUDGED:
             for k in dns.contents:
@@ -278,6 +294,50 @@ def run_sources(items: Sequence[Tuple[str, str, List[Tuple[str, str, Optional[st
                     continue        # instance variables set in methods are listed with their class by design
                 if k not in vars(pns) and not k.startswith('_') and not k.endswith(('.setter', '.deleter')):      # 'p.setter' is how a setter is listed, by design
                     res['violations'].append(core.violation(f'invented-extra/{pl}', f'pydoctor documents {k}, CPython does not bind it:\n{full}', {'kind': 'src', 'src': full, 'place': pl, 'names': [k]}))
+
+
+def model_Attribute() -> Any:
+    from pydoctor import model
+    return model.Attribute
+
+
+def attribute_docstrings(src: str) -> Dict[str, str]:
+    """reference: qualified names (relative to the module) of the variables a string statement documents - the string directly after an assignment, same body"""
+    out: Dict[str, str] = {}
+
+    def targets(node: ast.AST) -> List[str]:
+        ts: List[str] = []
+        if isinstance(node, ast.Assign):
+            for t in node.targets:
+                ts += [n.id for n in ast.walk(t) if isinstance(n, ast.Name)] + [n.attr for n in ast.walk(t) if isinstance(n, ast.Attribute) and isinstance(n.value, ast.Name) and n.value.id == 'self']
+        elif isinstance(node, (ast.AnnAssign, ast.AugAssign)):
+            t = node.target
+            if isinstance(t, ast.Name):
+                ts.append(t.id)
+            elif isinstance(t, ast.Attribute) and isinstance(t.value, ast.Name) and t.value.id == 'self':
+                ts.append(t.attr)
+        return ts
+
+    def walk_body(body: Sequence[ast.stmt], prefix: str, in_method_of: Optional[str]) -> None:
+        for i, st in enumerate(body):
+            nxt = body[i + 1] if i + 1 < len(body) else None
+            if isinstance(nxt, ast.Expr) and isinstance(nxt.value, ast.Constant) and isinstance(nxt.value.value, str):
+                for t in targets(st):
+                    out[(in_method_of if in_method_of is not None else prefix) + t] = nxt.value.value
+            if isinstance(st, ast.ClassDef):
+                walk_body(st.body, prefix + st.name + '.', None)
+            elif isinstance(st, (ast.FunctionDef, ast.AsyncFunctionDef)):
+                if prefix:      # a method: self.x assignments document instance variables of the class
+                    walk_body(st.body, prefix + st.name + '.', prefix)
+            else:
+                for fld in ('body', 'orelse', 'finalbody'):
+                    sub = getattr(st, fld, None)
+                    if isinstance(sub, list) and sub and isinstance(sub[0], ast.stmt):
+                        walk_body(sub, prefix, in_method_of)
+                for h in getattr(st, 'handlers', []) or []:
+                    walk_body(h.body, prefix, in_method_of)
+    walk_body(ast.parse(src).body, '', None)
+    return out
 
 
 def wrap(pl: str, src: str) -> str:
@@ -310,7 +370,8 @@ def singles() -> List[Tuple[str, str, List[Tuple[str, str, Optional[str]]], str]
                 names = [('X', f'{kn}:{dn}' if kn in ('def', 'class', 'var_int', 'prop') else (('presence:' + kn) if kn.startswith('outer-') else kn), docexp)]
                 if kn == 'var_chain':
                     names.append(('Z0X', kn, None))
-                for extra in {'targets-list': ['H0X'], 'targets-starred': ['S0X'], 'targets-nested': ['N0X', 'M0X']}.get(kn, []):
+                for extra in {'targets-list': ['H0X'], 'targets-starred': ['S0X'], 'targets-nested': ['N0X', 'M0X'], 'exc-rebound-exc': ['S0X'], 'exc-rebound-plain': ['S0X'],
+                              'plain-rebound-exc': ['S0X'], 'exc-rebound-in-try': ['S0X']}.get(kn, []):
                     names.append((extra, kn, None))
                 if kn == 'var_tuple':
                     names.append(('T0X', kn, None))
